@@ -7,6 +7,7 @@ import CheetahModel.DriverDiag
 import CheetahModel.DriverSC
 import CheetahModel.DriverSer
 import CheetahModel.DriverText
+import CheetahModel.DriverNx
 /-!
 # Line-protocol driver
 
@@ -21,7 +22,7 @@ def parseF (s : String) : Option Float := s.toNat?.map fun n => Float.ofBits n.t
 def fmtF (x : Float) : String := toString x.toBits.toNat
 
 def floatOps : List (String → Array Float → Option (List Float)) :=
-  [Drv.mapsOp, DrvEl.elemsOp, DrvB.bmadxOp, DrvD.dualOp, DrvG.diagOp, DrvS.scOp]
+  [Drv.mapsOp, DrvEl.elemsOp, DrvB.bmadxOp, DrvD.dualOp, DrvG.diagOp, DrvS.scOp, DrvNx.nxOp]
 
 def runFloatOp (op : String) (a : Array Float) : Option (List Float) :=
   floatOps.findSome? fun f => f op a
